@@ -418,6 +418,17 @@ func (p *Prog) keyVariants(k *Term, depth int) []keyVar {
 		if cl == nil || cl.Body == nil || p.pathsBusy[cl] {
 			return nil
 		}
+		if cl.Lit == nil {
+			// a declared function (a key builder held in a function value): the call of that function
+			direct := &Term{Op: cl.Name, Typ: k0.Typ}
+			for _, a := range k0.A[1:] {
+				if a.IsAt("ctx") || a.IsAt("K") {
+					continue
+				}
+				direct.A = append(direct.A, a)
+			}
+			return p.keyVariants(direct, depth+1)
+		}
 		m := map[string]*Term{}
 		for i, a := range k0.A[1:] {
 			m[fmt.Sprintf("P%d", i)] = a
